@@ -220,7 +220,7 @@ def cases(tier):
     out.append(Case("contract/newton", case_contract, {"solver": "newton", "max_iters": mi}, timeout_s=1800))
     out.append(Case("contract/line_search", case_contract, {"solver": "line_search", "max_iters": mi if th else 3, "ls_iters": 3 if th else 2}, timeout_s=3000))
     for kind in ("constr", "gauss_constr"):
-        for mkind in ("identity", "diag", "dense"):
+        for mkind in ("identity", "scaled", "diag", "dense"):
             for ckind in ("linear", "sphere"):
                 out.append(Case(f"projection/{kind}/{mkind}/{ckind}", run_group,
                                 {"probs": [("projection", {"kind": kind, "mkind": mkind, "ckind": ckind})]}, timeout_s=600))
